@@ -5,12 +5,9 @@ namespace VncModel.Life
 
 /-! ### isolation -/
 
-/-- what `rfbCloseClient` does to a record -/
-def closeRec (c : Conn) : Conn :=
-  { c with sockOpen := false, closeCalls := c.closeCalls + 1, wspath := false }
-
-/-- untouched, or (only if its socket was open) closed exactly once and otherwise untouched -/
-def SameOrClosed (c c' : Conn) : Prop := c' = c ∨ (c.sockOpen = true ∧ c' = closeRec c)
+/-- untouched, or what `rfbCloseClient` makes of it (`closeRec`: closed once if its socket was open —
+a record that is already closed only loses extension data it could not have any more) -/
+def SameOrClosed (c c' : Conn) : Prop := c' = c ∨ c' = closeRec c
 
 /-- record `j` of `w'` is record `j` of `w`, possibly closed once -/
 def Undisturbed (w w' : World) (j : Nat) : Prop :=
@@ -18,13 +15,24 @@ def Undisturbed (w w' : World) (j : Nat) : Prop :=
 
 theorem SameOrClosed.refl (c : Conn) : SameOrClosed c c := Or.inl rfl
 
+theorem closeRec_idem (c : Conn) : closeRec (closeRec c) = closeRec c := by
+  unfold closeRec
+  cases hs : c.sockOpen <;> simp
+
+/-- closing is counted at most once however often the record is handed to `rfbCloseClient` -/
+theorem closeRec_calls (c : Conn) :
+    (closeRec c).closeCalls = c.closeCalls + (if c.sockOpen then 1 else 0) ∧ (closeRec c).sockOpen = false ∨
+    (closeRec c).closeCalls = c.closeCalls ∧ c.sockOpen = false := by
+  unfold closeRec
+  cases hs : c.sockOpen <;> simp
+
 theorem SameOrClosed.trans {a b c : Conn} (h1 : SameOrClosed a b) (h2 : SameOrClosed b c) :
     SameOrClosed a c := by
-  rcases h1 with rfl | ⟨ha, rfl⟩
+  rcases h1 with rfl | rfl
   · exact h2
-  · rcases h2 with rfl | ⟨hb, _⟩
-    · exact Or.inr ⟨ha, rfl⟩
-    · simp [closeRec] at hb
+  · rcases h2 with rfl | rfl
+    · exact Or.inr rfl
+    · exact Or.inr (closeRec_idem a)
 
 theorem Undisturbed.refl (w : World) (j : Nat) : Undisturbed w w j :=
   fun c hc => ⟨c, hc, SameOrClosed.refl c⟩
@@ -44,13 +52,7 @@ theorem closeClient_undisturbed (w : World) (i j : Nat) : Undisturbed w (closeCl
   by_cases hij : i = j
   · subst hij
     intro c hc
-    unfold closeClient
-    by_cases ho : isOpen w i = true
-    · simp only [ho, if_true, emit_conns]
-      refine ⟨closeRec c, by rw [modConn_get_self w i _ c hc]; rfl, Or.inr ⟨?_, rfl⟩⟩
-      obtain ⟨c0, hc0, hs0⟩ := (isOpen_iff w i).mp ho
-      rw [hc] at hc0; cases hc0; exact hs0
-    · simp only [ho]; exact ⟨c, hc, SameOrClosed.refl c⟩
+    exact ⟨closeRec c, closeClient_get_self w i c hc, Or.inr rfl⟩
   · exact undisturbed_of_eq (closeClient_get_ne w i j hij)
 
 theorem closeClient_isolated (w : World) (i j : Nat) (h : i ≠ j) :
@@ -69,13 +71,20 @@ theorem gone_undisturbed (v : Variant) (w : World) (i j : Nat) (h : i ≠ j) :
       apply undisturbed_of_eq
       rw [goneCore_get]
       cases w.conns[j]? <;> simp [h]
-    cases c.goneKick with
-    | none => exact h1
-    | some k =>
-      simp only
-      split
-      · exact h1.trans (closeClient_undisturbed _ k j)
-      · exact h1
+    have hk : Undisturbed w (match c.goneKick with
+        | some k => if (c.hooked && appKnows (goneCore v w i c) k) = true then closeClient (goneCore v w i c) k
+                    else goneCore v w i c
+        | none => goneCore v w i c) j := by
+      cases c.goneKick with
+      | none => exact h1
+      | some k =>
+        simp only
+        split
+        · exact h1.trans (closeClient_undisturbed _ k j)
+        · exact h1
+    split
+    · exact hk.trans (undisturbed_of_eq rfl)
+    · exact hk
 
 /-- without a kick armed on `i`, `rfbClientConnectionGone(i)` touches no other record at all -/
 theorem gone_isolated (v : Variant) (w : World) (i j : Nat) (h : i ≠ j) (c : Conn)
@@ -83,8 +92,12 @@ theorem gone_isolated (v : Variant) (w : World) (i j : Nat) (h : i ≠ j) (c : C
     (gone v w i).conns[j]? = w.conns[j]? := by
   unfold gone
   simp only [hc, hk]
-  rw [goneCore_get]
-  cases w.conns[j]? <;> simp [h]
+  have : (goneCore v w i c).conns[j]? = w.conns[j]? := by
+    rw [goneCore_get]
+    cases w.conns[j]? <;> simp [h]
+  split
+  · simpa using this
+  · exact this
 
 theorem closeOthers_undisturbed (w : World) (i j : Nat) (l : List Nat) :
     Undisturbed w (closeOthers w i l) j := by
@@ -125,8 +138,16 @@ theorem msgEffect_undisturbed (v : Variant) (w : World) (i j : Nat) (m : Msg) (h
   cases m with
   | init sh =>
     simp only [msgEffect]
-    have h1 : Undisturbed w (modConn w i fun c => { c with st := .normal }) j :=
-      undisturbed_of_eq (modConn_get_ne _ _ _ _ h)
+    have h0 : (match w.conns[i]? with
+        | some c => if c.exts > 0 then emit w (.xinit i) else w
+        | none => w).conns = w.conns := by
+      cases w.conns[i]? with
+      | none => rfl
+      | some c => simp only; split <;> rfl
+    have h1 : Undisturbed w (modConn (match w.conns[i]? with
+        | some c => if c.exts > 0 then emit w (.xinit i) else w
+        | none => w) i fun c => { c with st := .normal }) j :=
+      undisturbed_of_eq (by rw [modConn_get_ne _ _ _ _ h, h0])
     split
     · exact h1
     · exact h1.trans (closeOthers_undisturbed _ i j _)
@@ -146,6 +167,17 @@ theorem msgEffect_undisturbed (v : Variant) (w : World) (i j : Nat) (m : Msg) (h
       · exact he.trans (closeClient_undisturbed _ i j)
       · exact he
   | ft => exact undisturbed_of_eq (openFt_isolated v w i j h)
+  | ftgo => exact undisturbed_of_eq (modConn_get_ne _ _ _ _ h)
+  | auth ok =>
+    simp only [msgEffect]
+    split
+    · exact undisturbed_of_eq (modConn_get_ne _ _ _ _ h)
+    · exact closeClient_undisturbed w i j
+  | ptr down =>
+    simp only [msgEffect]
+    cases w.ptrOwner with
+    | none => exact undisturbed_of_eq rfl
+    | some k => simp only; split; exact Undisturbed.refl w j; exact undisturbed_of_eq rfl
   | ver => exact undisturbed_of_eq (modConn_get_ne _ _ _ _ h)
   | sec => exact undisturbed_of_eq (modConn_get_ne _ _ _ _ h)
   | enc => exact Undisturbed.refl w j
@@ -163,7 +195,10 @@ theorem msgEffect_isolated (v : Variant) (w : World) (i j : Nat) (m : Msg) (h : 
   | init sh =>
     have := hm sh rfl; subst this
     simp only [msgEffect, if_true]
-    exact modConn_get_ne _ _ _ _ h
+    rw [modConn_get_ne _ _ _ _ h]
+    cases w.conns[i]? with
+    | none => rfl
+    | some c => simp only; split <;> rfl
   | scale k =>
     simp only [msgEffect]
     split
@@ -179,6 +214,17 @@ theorem msgEffect_isolated (v : Variant) (w : World) (i j : Nat) (m : Msg) (h : 
       · exact closeClient_get_ne _ i j h
       · rfl
   | ft => exact openFt_isolated v w i j h
+  | ftgo => exact modConn_get_ne _ _ _ _ h
+  | auth ok =>
+    simp only [msgEffect]
+    split
+    · exact modConn_get_ne _ _ _ _ h
+    · exact closeClient_get_ne w i j h
+  | ptr down =>
+    simp only [msgEffect]
+    cases w.ptrOwner with
+    | none => rfl
+    | some k => simp only; split <;> rfl
   | ver => exact modConn_get_ne _ _ _ _ h
   | sec => exact modConn_get_ne _ _ _ _ h
   | enc => rfl
@@ -329,9 +375,12 @@ theorem isOpen_closeClient_le (w : World) (k i : Nat) (h : isOpen (closeClient w
   · obtain ⟨c, hcc⟩ := Option.ne_none_iff_exists'.mp hc
     obtain ⟨c'', hc'', hs⟩ := closeClient_undisturbed w k i c hcc
     rw [hc'] at hc''; cases hc''
-    rcases hs with rfl | ⟨ho, rfl⟩
+    rcases hs with rfl | rfl
     · exact (isOpen_iff w i).mpr ⟨c', hcc, hs'⟩
-    · simp [closeRec] at hs'
+    · unfold closeRec at hs'
+      cases hso : c.sockOpen
+      · simp [hso] at hs'
+      · simp [hso] at hs'
 
 theorem isOpen_gone_le (v : Variant) (w : World) (j i : Nat) (h : isOpen (gone v w j) i = true) :
     isOpen w i = true := by
@@ -351,13 +400,21 @@ theorem isOpen_gone_le (v : Variant) (w : World) (j i : Nat) (h : isOpen (gone v
         by_cases hji : j = i
         · subst hji; simp at hc'; subst hc'; simp [goneRec] at hs'
         · simp [hji] at hc'; subst hc'; exact (isOpen_iff w i).mpr ⟨c0, hw, hs'⟩
-    cases hk : c.goneKick with
-    | none => simp only [hk] at h; exact hcore i h
-    | some k =>
-      simp only [hk] at h
-      split at h
-      · exact hcore i (isOpen_closeClient_le _ k i h)
-      · exact hcore i h
+    have hkick : isOpen (match c.goneKick with
+        | some k => if (c.hooked && appKnows (goneCore v w j c) k) = true then closeClient (goneCore v w j c) k
+                    else goneCore v w j c
+        | none => goneCore v w j c) i = true → isOpen w i = true := by
+      intro hk
+      cases hgk : c.goneKick with
+      | none => simp only [hgk] at hk; exact hcore i hk
+      | some k =>
+        simp only [hgk] at hk
+        split at hk
+        · exact hcore i (isOpen_closeClient_le _ k i hk)
+        · exact hcore i hk
+    split at h
+    · exact hkick h
+    · exact hkick h
 
 theorem reap_list_sub {v : Variant} {w : World} (h : Inv v w) (l : List Nat) :
     ∀ x, x ∈ (reap v w l).list → x ∈ w.list := by
